@@ -343,6 +343,7 @@ def run(ctx) -> None:
     ctx.rule("R4", "exempted characters are consumed by a dedicated step (bracket look-behind; backslash)")
     ctx.rule("R5", "rendering inverts the escapes and drops anchors")
     ctx.rule("R6", "pattern text from setup.cfg reaches the compiler verbatim (no %-interpolation in the INI reader)")
+    ctx.rule("R7", "a part name is substituted only where it does not overlap a part already substituted (text next to a part stays literal); the expression is searched in the unmodified line")
 
     table = prog.const("patterns", "RE_PATTERN_ESCAPES")
     ctx.floor("R2", "escape table entries", len(table), 12)
@@ -492,3 +493,98 @@ def run(ctx) -> None:
             ctx.ok("R6", f"{fq}: pattern strings pass through unedited")
     ctx.floor("R6", "functions on the TOML path that handle file_patterns", n_fn, 3)
     ctx.observe(f"INI-only functions (may normalise the multi-line INI value): {sorted(ini_only)}")
+
+    # INI: a pattern line is stripped of surrounding white space and nothing else
+    fpf = prog.function("config._parse_cfg_file_patterns")
+    ctx.visit(fpf.fq)
+    ys = [n for n in walk_no_nested(fpf.node) if isinstance(n, ast.Yield) and isinstance(n.value, ast.Tuple) and len(n.value.elts) == 2]
+    for y in ys:
+        pe = y.value.elts[1]
+        lc = shapes.loop_as_listcomp(fpf, pe.id, prog) if isinstance(pe, ast.Name) else None
+        expr = shapes.inline(fpf, lc if lc is not None else pe, prog)
+        comps = [n for n in ast.walk(expr) if isinstance(n, (ast.ListComp, ast.GeneratorExp))]
+        elts = [c.elt for c in comps]
+        for e in elts:
+            if isinstance(e, ast.Name):
+                continue
+            plain_strip = isinstance(e, ast.Call) and isinstance(e.func, ast.Attribute) and e.func.attr == "strip" and not e.args and isinstance(e.func.value, ast.Name)
+            if plain_strip:
+                ctx.ok("R6", f"_parse_cfg_file_patterns: a pattern line is `{unparse(e)}`")
+                continue
+            bad_edit = None
+            if isinstance(e, ast.Call):
+                t = prog.resolve_call(fpf, e, count=False)
+                if t.kind == "func" and t.fn is not None:
+                    for x in ast.walk(t.fn.node):
+                        if isinstance(x, ast.Subscript) and isinstance(x.slice, ast.Slice) and isinstance(x.ctx, ast.Load):
+                            bad_edit = x
+                        elif isinstance(x, ast.Call) and isinstance(x.func, ast.Attribute) and ((x.func.attr in ("strip", "lstrip", "rstrip") and x.args) or x.func.attr in STR_EDITS - {"strip", "splitlines", "split"}):
+                            bad_edit = x
+            ctx.check("R6", False if bad_edit is not None or not isinstance(e, ast.Call) else True, f"_parse_cfg_file_patterns: pattern line `{unparse(e)[:50]}` only strips white space",
+                      "config._parse_cfg_file_patterns: a setup.cfg pattern line is edited beyond stripping white space",
+                      f"`{unparse(bad_edit if bad_edit is not None else e)[:80]}`: characters of the pattern's literal text (e.g. a quote at both ends of `\"version\": \"{{version}}\"`) are removed, the "
+                      f"pattern then also matches other lines", loc=fpf.loc(e), witness={"setup.cfg pattern": '"version": "{version}"'})
+
+    # ---------------------------------------------------------------- R7
+    # (a) overlap guard of the part substitution, decided over the order types of (start, end, last_start)
+    rpp7 = prog.function("v2patterns._replace_pattern_parts")
+    g7 = ctx.cfgs.get(rpp7.fq)
+    from sa.pathcond import PathCond as _PC7
+    from sa.boolfn import BF as _BF7
+    pc7 = _PC7(g7)
+    splices = [n for n in g7.nodes if n.kind == "stmt" and isinstance(n.ast, ast.Assign) and n.id in g7.reachable() and isinstance(n.ast.value, ast.BinOp)
+               and sum(1 for x in ast.walk(n.ast.value) if isinstance(x, ast.Subscript) and isinstance(x.slice, ast.Slice)) == 2]
+    ctx.floor("R7", "splice statements in _replace_pattern_parts", len(splices), 1)
+    import itertools as _it
+    import operator as _op
+    _OPS = {"<": _op.lt, "<=": _op.le, ">": _op.gt, ">=": _op.ge, "==": _op.eq, "!=": _op.ne}
+    for n in splices:
+        sl = [x for x in ast.walk(n.ast.value) if isinstance(x, ast.Subscript) and isinstance(x.slice, ast.Slice)]
+        start_v = next((unparse(x.slice.upper) for x in sl if x.slice.lower is None and x.slice.upper is not None), None)
+        end_v = next((unparse(x.slice.lower) for x in sl if x.slice.upper is None and x.slice.lower is not None), None)
+        lasts = [unparse(t_) for m_ in g7.nodes if m_.kind == "stmt" and isinstance(m_.ast, ast.Assign) and unparse(m_.ast.value) == start_v and m_.id in g7.reachable(n.id) for t_ in m_.ast.targets]
+        ctx.require(start_v and end_v and len(set(lasts)) == 1, "_replace_pattern_parts: splice bounds / last-start variable not identified")
+        last_v = lasts[0]
+        r = pc7.reach(n.id).drop_unused()
+        names = {start_v: "s", end_v: "e", last_v: "L"}
+
+        def _cls(leaf: ast.AST) -> T.Tuple[str, bool]:
+            cs = shapes.compare_shape(leaf)
+            if cs is None or unparse(cs[1]) not in names or unparse(cs[2]) not in names:
+                raise AnalysisError(f"C07/R7: splice guard leaf not a comparison of the index variables: {unparse(leaf)}")
+            return f"{names[unparse(cs[1])]} {cs[0]} {names[unparse(cs[2])]}", True
+        def _is_idx_atom(a_: str) -> bool:
+            cs_ = shapes.compare_shape(shapes.inline(rpp7, ast.parse(a_, mode="eval").body, prog, consts=False))
+            return cs_ is not None and unparse(cs_[1]) in names and unparse(cs_[2]) in names
+        for a_ in list(r.atoms):
+            if not _is_idx_atom(a_):
+                r = r.exists(a_)          # conditions of earlier statements (the bracket rewrite loop) do not concern the guard
+        r = r.drop_unused()
+        gbf = shapes.semantic_bf(r, rpp7, _cls, prog)
+        wrong = None
+        for s_, e_, L_ in _it.product(range(5), repeat=3):
+            if s_ >= e_:
+                continue
+            f = gbf
+            for a in list(gbf.atoms):
+                l2, o2, r2 = a.split(" ")
+                env = {"s": s_, "e": e_, "L": L_}
+                f = f.restrict(a, _OPS[o2](env[l2], env[r2]))
+            if f.drop_unused().is_true() != (e_ <= L_) and wrong is None:
+                wrong = {"start": s_, "end": e_, "last_start": L_, "spliced": f.drop_unused().is_true()}
+        ctx.check("R7", wrong is None, "_replace_pattern_parts: a part is substituted iff it ends at or before the start of the part substituted last (no overlap)",
+                  "v2patterns._replace_pattern_parts: a part name that overlaps an already substituted part is substituted too",
+                  f"guard {gbf.to_dnf()} differs from `end <= last_start` for {wrong}: a literal character in front of a part that together with the part's first letters spells another "
+                  f"part name (`0` + `MAJOR` -> `0M`) is substituted into the already replaced text; the pattern no longer compiles or matches other text" if wrong else "",
+                  loc=rpp7.loc(n.ast), witness={"pattern": "rev0MAJOR.MINOR"})
+    # (b) the expression is searched in the line as it is
+    lsf = prog.function("parse._iter_for_pattern") if prog.has_function("parse._iter_for_pattern") else prog.function("parse.iter_matches")
+    ctx.visit(lsf.fq)
+    srch = [c for c in ast.walk(lsf.node) if isinstance(c, ast.Call) and isinstance(c.func, ast.Attribute) and c.func.attr in ("search", "finditer", "match") and unparse(c.func.value).endswith(".regexp")]
+    ctx.floor("R7", "regexp search calls of the line search", len(srch), 1)
+    line_vars = {unparse(l_.target.elts[1]) for l_ in walk_no_nested(lsf.node) if isinstance(l_, ast.For) and isinstance(l_.target, ast.Tuple) and len(l_.target.elts) == 2 and unparse(l_.iter).startswith("enumerate(")}
+    for c in srch:
+        a0 = shapes.inline(lsf, c.args[0], prog) if c.args else None
+        ctx.check("R7", a0 is not None and isinstance(a0, ast.Name) and a0.id in line_vars and c.func.attr == "search", f"{lsf.name}: the expression is searched in the unmodified line `{unparse(a0) if a0 is not None else None}`",
+                  f"parse.{lsf.name}: the pattern is not searched in the line as it is",
+                  f"`{unparse(c)}`: e.g. with the line right-stripped, a pattern whose literal text ends in blanks no longer matches its own line", loc=lsf.loc(c), witness={"pattern": "Release: {version}  "})
